@@ -640,6 +640,21 @@ fn covered_field(k: usize, res: &mut CaseResult) -> Option<(String, Value)> {
         swapped.push((4, Ev::Equal { other: 3 }));
         deliveries.push(("split the other way round", EvidenceSet { n_vars: 5, judgements: swapped }));
     }
+    // ... and once more with the halves listed high-to-low and a second,
+    // identical-layout statement of them listed low-to-high (span order within
+    // a packed encoding is not part of what it says).
+    {
+        let mut unsorted = vec![
+            (0usize, Ev::Packed { spans: vec![(2, 16, 16), (1, 0, 16)], is_struct: false }),
+            (0usize, Ev::Packed { spans: vec![(4, 0, 16), (2, 16, 16)], is_struct: false }),
+            (0usize, Ev::Packed { spans: vec![(3, 0, 32)], is_struct: false }),
+            (3, e1.clone()),
+        ];
+        if let Some(e2) = &e2 {
+            unsorted.push((3, e2.clone()));
+        }
+        deliveries.push(("halves stated twice, once listed high-to-low", EvidenceSet { n_vars: 5, judgements: unsorted }));
+    }
     let show = |o: &UnifyOutcome, v: usize| -> String {
         if let Some(p) = &o.panic {
             return format!("Panic({})", p.signature);
@@ -675,7 +690,7 @@ fn covered_field(k: usize, res: &mut CaseResult) -> Option<(String, Value)> {
         let o = run_unify(&direct, &Sched::natural(0), &UnifyOpts::default());
         res.runs += 1;
         res.steps += o.polls;
-        let out = format!("field {}", show(&o, 3));
+        let out = format!("field {} halves {}", show(&o, 3), if o.same_class(1, 2) { "one class" } else { "apart" });
         by_delivery.push(json!({"delivery": "stated about the field directly", "schedule": "natural(0)", "outcome": out}));
         seen.insert(out);
     }
@@ -687,7 +702,7 @@ fn covered_field(k: usize, res: &mut CaseResult) -> Option<(String, Value)> {
             res.steps += o.polls;
             res.fold_orders.push(o.record.fold_digest);
             res.fault("field_refined_by_a_later_round");
-            let out = format!("field {}", show(&o, 3));
+            let out = format!("field {} halves {}", show(&o, 3), if o.same_class(1, 2) { "one class" } else { "apart" });
             let word = format!("word {}", show(&o, 0));
             let new_word = seen_word.insert(word.clone());
             if seen.insert(out.clone()) || new_word {
@@ -713,12 +728,96 @@ fn covered_field(k: usize, res: &mut CaseResult) -> Option<(String, Value)> {
     ))
 }
 
+const PUSHED_USAGES: [(WordUse, usize); 4] = [(WordUse::Address, 160), (WordUse::Bool, 8), (WordUse::Selector, 32), (WordUse::Function, 192)];
+
+fn pushed_word_cases() -> u64 {
+    (PUSHED_USAGES.len() * 6) as u64
+}
+
+/// A word of a fixed-size usage stated about a value that is also a packed
+/// encoding of one field of that size: the library's documented way of typing
+/// the field (the word is pushed down onto the span's variable). The field
+/// variable `t` is equated with another variable `t2` that carries compatible
+/// evidence of its own. What `t` and `t2` resolve to, and that they stay one
+/// class, must not depend on the schedule, and must be what the same word
+/// gives when stated about `t` directly.
+fn pushed_word(k: usize, res: &mut CaseResult) -> Option<(String, Value)> {
+    let (usage, w) = PUSHED_USAGES[k / 6];
+    let other = match k % 6 {
+        0 => Ev::Any,
+        1 => Ev::word(Some(w), WordUse::Bytes),
+        2 => Ev::word(None, WordUse::Bytes),
+        3 => Ev::word(Some(w), usage),
+        4 => Ev::word(None, usage),
+        _ => Ev::word(Some(w), WordUse::Bytes),
+    };
+    // variables: 0 = x, 1 = t, 2 = t2 (k % 6 == 5: the equality stated from t2)
+    let eq = if k % 6 == 5 { (2usize, Ev::Equal { other: 1 }) } else { (1usize, Ev::Equal { other: 2 }) };
+    let pushed = EvidenceSet {
+        n_vars:     3,
+        judgements: vec![
+            (0, Ev::word(Some(w), usage)),
+            (0, Ev::Packed { spans: vec![(1, 0, w)], is_struct: false }),
+            eq.clone(),
+            (2, other.clone()),
+        ],
+    };
+    let direct = EvidenceSet {
+        n_vars:     3,
+        judgements: vec![(1, Ev::word(Some(w), usage)), eq, (2, other.clone())],
+    };
+    let show = |o: &UnifyOutcome| -> String {
+        if let Some(p) = &o.panic {
+            return format!("Panic({})", p.signature);
+        }
+        if o.budget_exhausted {
+            return "DidNotTerminate".into();
+        }
+        let kind = |v: usize| match o.data[o.class[v]].as_deref() {
+            Some([one]) => evidence::te_kind(one),
+            Some([]) | None => "nothing".to_string(),
+            Some(many) => format!("{:?}", many.iter().map(evidence::te_kind).collect::<Vec<_>>()),
+        };
+        format!("t {} | t2 {} | {}", kind(1), kind(2), if o.same_class(1, 2) { "one class" } else { "apart" })
+    };
+    let reference = show(&run_unify(&direct, &Sched::natural(0), &UnifyOpts::default()));
+    res.runs += 1;
+    let mut scheds: Vec<Sched> = (0..6).map(Sched::natural).collect();
+    scheds.push(Sched::adversarial(1, 1000, storage_layout_extractor::verif::MENU_REVERSE));
+    scheds.push(Sched::adversarial(2, 1000, storage_layout_extractor::verif::MENU_ALL));
+    let mut seen: BTreeSet<String> = BTreeSet::new();
+    seen.insert(reference.clone());
+    let mut example = None;
+    for sched in &scheds {
+        let o = run_unify(&pushed, sched, &UnifyOpts::default());
+        res.runs += 1;
+        res.steps += o.polls;
+        res.fold_orders.push(o.record.fold_digest);
+        res.fault("word_pushed_down_onto_an_equated_field");
+        let out = show(&o);
+        if out != reference && example.is_none() {
+            example = Some(sched.label());
+        }
+        seen.insert(out);
+    }
+    if std::env::var_os("SLX_DEBUG").is_some() {
+        eprintln!("debug: pushed-word {k}: {seen:?}");
+    }
+    if seen.len() <= 1 {
+        return None;
+    }
+    Some((
+        format!("pushed-word:{} onto a field equated with {}: stated directly gives {{{reference}}}, pushed down gives {{{}}}", Ev::word(Some(w), usage).kind(), other.kind(), seen.iter().filter(|x| **x != reference).cloned().collect::<Vec<_>>().join(" || ")),
+        json!({"word": Ev::word(Some(w), usage).kind(), "other": other.kind(), "direct": reference, "all": seen, "first_differing_schedule": example}),
+    ))
+}
+
 impl Check for C16Check {
     fn info(&self) -> CheckInfo {
         CheckInfo {
             id: "C16",
             level: "fault_enumeration",
-            rule: "case = one multiset E of distinct pieces from the 38-piece domain (Any, dynamic bytes, 4 free usages x 6 widths, 4 fixed-width usages, Mapping(a,b), Mapping(b,a), DynArray(a), DynArray(b), FixedArray(a)[3], FixedArray(b)[3], FixedArray(a)[5], a conflict): all 703 pairs and all 8436 triples (thorough: also all 73815 quadruples); each E is delivered to the real unifier in all |E|! fold orders (scripted at the fold scheduling point), in all |E|! recording orders, under 2 further hash keys, in every 2-way split over two equated variables, and in every 2-way split over two variables that become equal only in a later round; all deliveries must give the same normalised outcome. Each 2-way split is also delivered with a unification in between two stages (derived equality first, then the same equality stated and the deriving class made contradictory), which must equal the same evidence unified once, through the free function and through TypeChecker::unify; the equated split is also recorded with infer_many. 25 further cases: one 128-bit field shared by two words, each word also seen with a layout that cuts the field (at 16/32/64/96/112 bits), under 15 schedules; the field's layout must be the one the two cuts give when stated about the field directly. 28 more: a 32-bit field that its word also shows as two 16-bit halves, with one or two of seven compatible words stated about it (both on the field, or split over an equated variable, either way round) under 6 schedules; all must agree. evaluations = unifier runs; non-trivial = a multiset whose deliveries folded at least two pieces (all of them); distinct = distinct multisets",
+            rule: "case = one multiset E of distinct pieces from the 38-piece domain (Any, dynamic bytes, 4 free usages x 6 widths, 4 fixed-width usages, Mapping(a,b), Mapping(b,a), DynArray(a), DynArray(b), FixedArray(a)[3], FixedArray(b)[3], FixedArray(a)[5], a conflict): all 703 pairs and all 8436 triples (thorough: also all 73815 quadruples); each E is delivered to the real unifier in all |E|! fold orders (scripted at the fold scheduling point), in all |E|! recording orders, under 2 further hash keys, in every 2-way split over two equated variables, and in every 2-way split over two variables that become equal only in a later round; all deliveries must give the same normalised outcome. Each 2-way split is also delivered with a unification in between two stages (derived equality first, then the same equality stated and the deriving class made contradictory), which must equal the same evidence unified once, through the free function and through TypeChecker::unify; the equated split is also recorded with infer_many. 25 further cases: one 128-bit field shared by two words, each word also seen with a layout that cuts the field (at 16/32/64/96/112 bits), under 15 schedules; the field's layout must be the one the two cuts give when stated about the field directly. 28 more: a 32-bit field that its word also shows as two 16-bit halves, with one or two of seven compatible words stated about it (both on the field, or split over an equated variable, either way round) under 6 schedules, and once with the halves stated twice, once listed high-to-low; all must agree. 24 more: a fixed-size-usage word stated about a value that is also a packed encoding of one field of that size, the field's variable equated with another that carries compatible evidence, under 8 schedules; the two variables must end as they do when the word is stated about the field directly. evaluations = unifier runs; non-trivial = a multiset whose deliveries folded at least two pieces (all of them); distinct = distinct multisets",
             assumptions: &[
                 "merge is only observed through unification::unify, so the check cannot demand more than the system-level statement",
                 "outcomes are compared after erasing conflict payloads and replacing type variables by the class of the named variables a, b",
@@ -731,6 +830,7 @@ impl Check for C16Check {
         let n = domain().len() as u64;
         shared_field_cases()
             + covered_field_cases()
+            + pushed_word_cases()
             + match tier {
                 Tier::Quick => choose(n, 2) + choose(n, 3),
                 Tier::Thorough => choose(n, 2) + choose(n, 3) + choose(n, 4),
@@ -749,7 +849,21 @@ impl Check for C16Check {
         let Some(e) = multiset(idx, tier) else {
             // The cases after the multisets: the shared-field and the
             // covered-field scenarios.
-            let k = (idx - (self.cases(tier) - shared_field_cases() - covered_field_cases())) as usize;
+            let k = (idx - (self.cases(tier) - shared_field_cases() - covered_field_cases() - pushed_word_cases())) as usize;
+            if k >= (shared_field_cases() + covered_field_cases()) as usize {
+                let k = k - (shared_field_cases() + covered_field_cases()) as usize;
+                res.nontrivial.push(idx);
+                res.probe("pushed_word_scenarios");
+                if let Some((sig, detail)) = pushed_word(k, &mut res) {
+                    res.violations.push(Violation {
+                        property:  "C16".into(),
+                        signature: sig,
+                        detail:    json!({"case": idx, "explanation": detail}),
+                        replay:    json!({"check": "C16", "kind": "pushed_word", "k": k}),
+                    });
+                }
+                return res;
+            }
             if k >= shared_field_cases() as usize {
                 let k = k - shared_field_cases() as usize;
                 res.nontrivial.push(idx);
@@ -818,6 +932,16 @@ impl Check for C16Check {
     }
 
     fn replay(&self, payload: &Value) -> Result<Option<Violation>, String> {
+        if payload["kind"].as_str() == Some("pushed_word") {
+            let k = payload["k"].as_u64().ok_or("no k")? as usize;
+            let mut res = CaseResult::default();
+            return Ok(pushed_word(k, &mut res).map(|(sig, detail)| Violation {
+                property: "C16".into(),
+                signature: sig,
+                detail,
+                replay: payload.clone(),
+            }));
+        }
         if payload["kind"].as_str() == Some("covered_field") {
             let k = payload["k"].as_u64().ok_or("no k")? as usize;
             let mut res = CaseResult::default();
